@@ -17,8 +17,8 @@ M64 = (1 << 64) - 1
 EXEMPT = {'BSC_getpid', 'BSC_getuid', 'BSC_geteuid', 'BSC_getppid', 'BSC_getegid', 'BSC_getgid', 'BSC_getpgrp', 'BSC_umask',
           'BSC_sync', 'BSC_sys_getdtablesize', 'BSC_getlogin', 'BSC_execve', 'BSC_vfork', 'BSC_bsdthread_create',
           'BSC_abort_with_payload'}
-ERRS = [0] + list(range(1, 107)) + [107, 255, 9999, 1 << 31, 1 << 32, 1 << 63, M64]
-RETS = [0, 1, 0x55, 1 << 31, 1 << 63, M64]
+ERRS = [0] + list(range(1, 107)) + [107, 110, 250, 255, 9999, 1 << 31, 1 << 32, 1 << 63, M64]     # 110, 250: decimal forms that end in 0
+RETS = [0, 1, 10, 0x55, 1000, 1 << 31, 1 << 63, M64]
 TAILS = [(0, 0), (0x66, 0x77)]
 STARTS = [(0x1111, 0x2222, 0x3333, 0x4444), (0, 0, 0, 0), (M64, M64, M64, M64)]
 ERR_RE = re.compile(r'^, errno: (?:[A-Za-z_][A-Za-z_0-9]*\((\d+)\)|(\d+))(?![A-Za-z_0-9(])(.*)$')
@@ -46,6 +46,20 @@ def render(name, s, e, nlook, shape=None):
         # the other thread's whole call falls inside ours: A.START B.START B.END A.END
         evs = [E.ev(name, 1, s), E.ev(name, 1, s, tid=2), E.ev(name, 2, (0x9a, 0x9b9b, 0x9c9c, 0x9d9d), tid=2)] + mid + [E.ev(name, 2, e)]
         judged = len(evs) - 1
+    if shape in ('same-thread-crossing', 'start-without-end-after'):
+        oth = 'BSC_getppid' if name != 'BSC_getppid' else 'BSC_getpid'
+        if shape == 'same-thread-crossing':
+            # overlapping, not nested, on ONE thread: other.START mine.START other.END mine.END
+            evs = [E.ev(oth, 1, (0x9a9a, 0x9b9b, 0x9c9c, 0x9d9d)), evs[0], E.ev(oth, 2, (0x9a, 0x9b9b, 0x9c9c, 0x9d9d))] + evs[1:]
+            judged = len(evs) - 1
+        else:
+            # the dump ends inside the NEXT call of the same kind (its START is the last record) and inside another call
+            judged = len(evs) - 1
+            evs = evs + [E.ev(oth, 1, (0x9a9a, 0x9b9b, 0x9c9c, 0x9d9d)), E.ev(name, 1, s)]
+        out = [t for t in p.feed_generator(E.restamp(evs)) if t.ktraces[0].eventid == E.n2i(name)]
+        if len(out) != 1 or out[0].ktraces[-1].timestamp != judged:
+            return None
+        return E.stable_str(out[0])
     if shape in ('other-open-inside', 'other-open-before'):
         # another call of the same thread whose END record was lost is still open when ours ends (opened inside / before ours)
         other = E.ev('BSC_getuid' if name != 'BSC_getuid' else 'BSC_getpid', 1, (0x9a9a, 0x9b9b, 0x9c9c, 0x9d9d))
@@ -78,7 +92,7 @@ def judge_decoder(name, starts, nlooks, acc, full=True):
             for err in (ERRS if full or si == 0 else (0, 2, 9999, M64)):
                 for ret in RETS:
                     for tail in TAILS:
-                      for shape in ((None, 'long', 'crossing', 'enclosing', 'odd-timestamps', 'other-open-inside', 'other-open-before') if (err in (0, 2, 9999) and ret in (0x55, M64) and tail == TAILS[1] and si == 0) else (None,)):
+                      for shape in ((None, 'long', 'crossing', 'enclosing', 'odd-timestamps', 'other-open-inside', 'other-open-before', 'same-thread-crossing', 'start-without-end-after') if (err in (0, 2, 9999) and ret in (0x55, M64) and tail == TAILS[1] and si == 0) else (None,)):
                         e = (err, ret) + tail
                         case = {'decoder': name, 'start': [hex(x) for x in s], 'end': [hex(x) for x in e], 'lookups': nlook, 'shape': shape}
                         try:
@@ -144,11 +158,11 @@ def judge_decoder(name, starts, nlooks, acc, full=True):
 class C10(Check):
     pid = 'C10'
     level = 'exploration'
-    rule = ('every BSD decoder outside the exempt list (15 names from the statement) x START tuples {junk, zeros, all-ones} (enum words forced in-domain; quick: zeros and all-ones meet error words {0, 2, 9999, 2^64-1} only) x END tuples = error word {0, every errno 1..106, 107, 255, '
-            '9999, 2^31, 2^32, 2^63, 2^64-1} x return word {0,1,0x55,2^31,2^63,2^64-1} x words 2,3 {(0,0),(0x66,0x77)} x '
+    rule = ('every BSD decoder outside the exempt list (15 names from the statement) x START tuples {junk, zeros, all-ones} (enum words forced in-domain; quick: zeros and all-ones meet error words {0, 2, 9999, 2^64-1} only) x END tuples = error word {0, every errno 1..106, 107, 110, 250, 255, '
+            '9999, 2^31, 2^32, 2^63, 2^64-1} x return word {0,1,10,0x55,1000,2^31,2^63,2^64-1} x words 2,3 {(0,0),(0x66,0x77)} x '
             'lookups in window {6 (quick); 0 and 6 (thorough)}; for 12 END tuples per decoder also a window with 5000 stand-alone '
             'same-thread records between START and END, and crossing / enclosing windows (another thread inside the same call with other END '
-            'words: A.START B.START A.END B.END and A.START B.START B.END A.END, parser built with a populated thread map), a window whose nested records carry the END tick or later ticks, and windows with another call of the same thread (its END lost) still open, opened inside / before ours. Oracle: error!=0 => result part is exactly ", errno: NAME(code)" '
+            'words: A.START B.START A.END B.END and A.START B.START B.END A.END, parser built with a populated thread map), a window whose nested records carry the END tick or later ticks, and windows with another call of the same thread (its END lost) still open, opened inside / before ours, overlapping ours without nesting, and with the dump ending inside the next call of the same kind (no END: nothing more may be printed). Oracle: error!=0 => result part is exactly ", errno: NAME(code)" '
             'or ", errno: code" with that code; error==0 => no errno, every number shown renders END word 1..3; call part '
             'identical across END tuples; result part identical across START tuples. Distinct by construction; non-trivial = '
             'error word non-zero or a success value is shown.')
